@@ -207,6 +207,106 @@ static Verdict run_c09(const Case &c)
       return Verdict::fail(m + " [" + std::to_string(nthreads) + " threads using the cipher for the first time in the process at once]");
     return v;
   }
+  if (kind == "handles")
+  {
+    // handle lifetimes: handles constructed, copied, assigned, destroyed and their storage reused for another key;
+    // whatever handle is run must compute AES under the key IT was built / copied / assigned with.
+    bool enc = c.geti("enc", 1) != 0;
+    int nslots = (int)c.geti("slots", 3), nops = (int)c.geti("ops", 24);
+    Sm64 r(strtoull(c.get("seed", "0").c_str(), NULL, 10));
+    std::vector<wapi::AesHOp> ops;
+    std::vector<bytes> model((size_t)nslots), want;
+    std::vector<std::string> what;
+    bool copied_then_source_gone = false;
+    std::vector<int> copied_from((size_t)nslots, -1);
+    for (int i = 0; i < nops; i++)
+    {
+      wapi::AesHOp o;
+      uint64_t x = r.next();
+      int sel = (int)(x % 100);
+      o.a = (int)((x >> 8) % (uint64_t)nslots);
+      o.b = (int)((x >> 16) % (uint64_t)nslots);
+      o.op = sel < 25 ? 0 : sel < 45 ? 1 : sel < 55 ? 2 : sel < 65 ? 3 : 4;
+      if (i < 2)
+      {
+        o.op = 0;
+        o.a = i % nslots;
+      }
+      if (o.op == 0)
+      {
+        o.key = r.bytes_(16);
+        model[(size_t)o.a] = o.key;
+        for (int s2 = 0; s2 < nslots; s2++)
+          if (copied_from[(size_t)s2] == o.a)
+            copied_from[(size_t)s2] = -2; // its source now holds another key
+        copied_from[(size_t)o.a] = -1;
+      }
+      else if (o.op == 1)
+      {
+        if (o.a != o.b && !model[(size_t)o.b].empty())
+        {
+          model[(size_t)o.a] = model[(size_t)o.b];
+          copied_from[(size_t)o.a] = o.b;
+        }
+      }
+      else if (o.op == 2)
+      {
+        if (!model[(size_t)o.a].empty() && !model[(size_t)o.b].empty() && o.a != o.b)
+        {
+          model[(size_t)o.a] = model[(size_t)o.b];
+          copied_from[(size_t)o.a] = o.b;
+        }
+      }
+      else if (o.op == 3)
+      {
+        model[(size_t)o.a].clear();
+        for (int s2 = 0; s2 < nslots; s2++)
+          if (copied_from[(size_t)s2] == o.a)
+            copied_from[(size_t)s2] = -2;
+        copied_from[(size_t)o.a] = -1;
+      }
+      else
+      {
+        o.block = r.bytes_(16);
+        if (model[(size_t)o.a].empty())
+          want.push_back(bytes());
+        else
+        {
+          ref::Aes128 a(model[(size_t)o.a].data());
+          bytes w(16);
+          if (enc)
+            a.enc(o.block.data(), w.data());
+          else
+            a.dec(o.block.data(), w.data());
+          want.push_back(w);
+          if (copied_from[(size_t)o.a] == -2)
+            copied_then_source_gone = true;
+        }
+        what.push_back("step " + std::to_string(i) + ": handle in slot " + std::to_string(o.a) + (copied_from[(size_t)o.a] == -2 ? " (a copy whose source has since been destroyed / rebuilt with another key)" : copied_from[(size_t)o.a] >= 0 ? " (a copy, source alive)" : "") + ", key=" + hex(model[(size_t)o.a]) + ", block=" + hex(o.block));
+      }
+      ops.push_back(o);
+    }
+    bool copyable = true;
+    std::vector<bytes> got = wapi::aes_handles(enc, nslots, ops, &copyable);
+    v.nontrivial = true;
+    v.weight = want.size();
+    if (!copyable)
+    {
+      v.classes.push_back("handles_not_copyable_copies_skipped");
+      return v; // the model copied, the library did not: nothing to compare
+    }
+    for (size_t i = 0; i < want.size() && i < got.size(); i++)
+      if (got[i] != want[i])
+      {
+        Verdict f = Verdict::fail(std::string(enc ? "encrypt" : "decrypt") + " through a long-lived handle: " + what[i] + " gave " + hex(got[i]) + ", FIPS-197 gives " + hex(want[i]));
+        f.nontrivial = true;
+        return f;
+      }
+    if (const char *cm = wapi::canary_report())
+      return Verdict::fail(std::string(cm) + " (handle script)");
+    v.classes.push_back(copied_then_source_gone ? "handles_copy_outlives_source" : "handles_script");
+    return v;
+  }
   if (kind == "state")
   {
     bytes k = c.getb("key");
@@ -394,6 +494,15 @@ static Case gen_c09()
     c.seti("round", g::range(1, point == 0 ? 10 : 11));
     c.seti("zeromask", zero_pattern(g::range(0, 8), g::range(0, 65536)));
     c.seti("fill", g::range(1, 1000000));
+    return c;
+  }
+  if (g::coin(8))
+  {
+    c.set("kind", "handles");
+    c.seti("enc", g::range(0, 2));
+    c.seti("slots", g::range(2, 5));
+    c.seti("ops", g::range(6, 40));
+    c.set("seed", std::to_string(g::u64()));
     return c;
   }
   if (g::coin(85))
